@@ -30,6 +30,14 @@
 (* not late, QUAL = participants \ LateSet and a share on one polynomial;   *)
 (* the late node is evicted and fails.                                      *)
 (*                                                                         *)
+(* A holder whose response never arrives counts as a complaint against      *)
+(* every dealer, so each timely dealer publishes a justification bundle.    *)
+(*                                                                         *)
+(* Faithful to the locking of the code: Command(proposal) keeps the process  *)
+(* lock until every recipient has answered the leader's own proposal call    *)
+(* (variable plock): until then the leader neither executes nor handles      *)
+(* incoming packets.                                                         *)
+(*                                                                         *)
 (* What is NOT trusted and therefore explicit: the canonical order (sorted  *)
 (* by public key) that defines indices, the terms every node stored from    *)
 (* the proposal, the group built from QUAL + terms + a LOCAL transition     *)
